@@ -9,6 +9,7 @@ Open Scope N_scope.
 (* ---------------------------------------------------------------- wf_class, unfolded *)
 Record wf_class_facts (D : mdesc) (c : cdesc) : Prop := {
   wfc_name : plain_name (cd_name c) = true;
+  wfc_gen : plain_name (derived_class_name c) = true;
   wfc_meta_name : oplain_name (cd_meta_name c) = true;
   wfc_meta_ns : oplain_ns (cd_meta_ns c) = true;
   wfc_base : cd_base c = None;
@@ -894,7 +895,7 @@ Section TA.
     (* the element's name *)
     set (q := match over with Some q => q | None => clark cns (class_local cd) end).
     assert (Hlocal : class_local cd <> []).
-    { unfold class_local. pose proof (wfc_meta_name D cd W) as H1. pose proof (wfc_name D cd W) as H2.
+    { unfold class_local. pose proof (wfc_meta_name D cd W) as H1. pose proof (wfc_gen D cd W) as H2.
       destruct (cd_meta_name cd) as [[|x r]|]; try discriminate; intros E; rewrite E in H2; discriminate. }
     assert (Hq : match over with Some ((_ :: _) as q0) => q0 | _ => m_qname meta end = q).
     { unfold q. destruct over as [[|x r]|].
